@@ -272,12 +272,54 @@ func (p *PlanDump) SortedTF() []string {
 	return out
 }
 
-// PlanIndex maps every response key path of the planned response tree to the "Parent.field"
-// coordinates (FieldInfo.ExactParentTypeName + Name) of the fields planned there.
-func PlanIndex(r *resolve.GraphQLResponse) map[string]map[string]bool {
-	idx := map[string]map[string]bool{}
-	var walk func(n resolve.Node, kp string)
-	walk = func(n resolve.Node, kp string) {
+// PlanEntry is one field of the planned response tree at a response key path.
+type PlanEntry struct {
+	Coord string // "ExactParentTypeName.Name"
+	// Conds: type conditions under which the renderer walks the field -- its own OnTypeNames (depth 0 =
+	// the enclosing object) and ParentOnTypeNames, and those of every enclosing field (shifted up)
+	Conds []PlanCond
+	// Far: some condition looks at an object above the enclosing one
+	Far bool
+}
+
+// PlanCond: the object Depth levels above the field's enclosing object (0 = that object) has one of Names.
+type PlanCond struct {
+	Depth int
+	Names []string
+}
+
+// Applies: the renderer would walk this field for an object whose runtime types, innermost first, are rts.
+func (e *PlanEntry) Applies(rts []string) bool {
+	for _, c := range e.Conds {
+		if c.Depth >= len(rts) {
+			continue
+		}
+		ok := false
+		for _, n := range c.Names {
+			if n == rts[c.Depth] {
+				ok = true
+			}
+		}
+		if !ok {
+			return false
+		}
+	}
+	return true
+}
+
+// PlanIndex maps every response key path of the planned response tree ("/a/b", list levels transparent) to
+// the fields planned there with their type conditions.
+func PlanIndex(r *resolve.GraphQLResponse) map[string][]PlanEntry {
+	idx := map[string][]PlanEntry{}
+	strs := func(bs [][]byte) []string {
+		out := make([]string, len(bs))
+		for i, b := range bs {
+			out[i] = string(b)
+		}
+		return out
+	}
+	var walk func(n resolve.Node, kp string, inherited []PlanCond)
+	walk = func(n resolve.Node, kp string, inherited []PlanCond) {
 		switch x := n.(type) {
 		case *resolve.Object:
 			if x == nil {
@@ -285,20 +327,34 @@ func PlanIndex(r *resolve.GraphQLResponse) map[string]map[string]bool {
 			}
 			for _, f := range x.Fields {
 				ckp := kp + "/" + string(f.Name)
-				if f.Info != nil {
-					if idx[ckp] == nil {
-						idx[ckp] = map[string]bool{}
-					}
-					idx[ckp][f.Info.ExactParentTypeName+"."+f.Info.Name] = true
+				conds := append([]PlanCond(nil), inherited...)
+				if f.OnTypeNames != nil {
+					conds = append(conds, PlanCond{0, strs(f.OnTypeNames)})
 				}
-				walk(f.Value, ckp)
+				for _, pc := range f.ParentOnTypeNames {
+					conds = append(conds, PlanCond{pc.Depth, strs(pc.Names)})
+				}
+				if f.Info != nil {
+					e := PlanEntry{Coord: f.Info.ExactParentTypeName + "." + f.Info.Name, Conds: conds}
+					for _, c := range conds {
+						if c.Depth > 0 {
+							e.Far = true
+						}
+					}
+					idx[ckp] = append(idx[ckp], e)
+				}
+				up := make([]PlanCond, len(conds))
+				for i, c := range conds {
+					up[i] = PlanCond{c.Depth + 1, c.Names}
+				}
+				walk(f.Value, ckp, up)
 			}
 		case *resolve.Array:
 			if x != nil {
-				walk(x.Item, kp)
+				walk(x.Item, kp, inherited)
 			}
 		}
 	}
-	walk(r.Data, "")
+	walk(r.Data, "", nil)
 	return idx
 }
